@@ -275,6 +275,16 @@ def QExpr.dupFree : QExpr → Bool
 /-- DuckDB accepts `n` values iff `n` = number of placeholders in the executed SQL -/
 def qmarkAccepts (e : QExpr) (n : Nat) : Bool := e.phsRendered == n
 
+/-- a statement that fakesnow explodes into several engine statements (MERGE → candidates, one DELETE/UPDATE/INSERT
+    per clause, counts; `cursor.py:145-148`): each of them is executed with the WHOLE qmark parameter list, and DuckDB
+    accepts a statement only if its own placeholder count equals the length of the list.
+    `counts` = placeholders per generated statement. -/
+def explodeAccepts (counts : List Nat) (n : Nat) : Bool := counts.all (· == n)
+
+/-- the same parameter list bound again and again (the caller re-uses its dict / tuple / list object) -/
+def rebind (style : Style) (c : List Char) (a : Args) (times : Nat) : List (Fmt × Bool) :=
+  cursorRun style (List.replicate times (c, a))
+
 /-! ## DuckDB reading a decimal literal into a FLOAT column -/
 
 /-- DuckDB reads `123.456` as DECIMAL (mantissa 123456, scale 3) and casts it to DOUBLE by a division in
